@@ -426,6 +426,13 @@ class NameConverter(ast.NodeTransformer):
         hidden = params & self.recurse_syms
         if not hidden:
             return self.generic_visit(node)
+        # Defaults and decorators are evaluated in the enclosing scope, where
+        # the names still have their special meaning (rewritten here, they
+        # are left alone by the visit below)
+        a.defaults = [self.visit(d) for d in a.defaults]
+        a.kw_defaults = [d and self.visit(d) for d in a.kw_defaults]
+        if not isinstance(node, ast.Lambda):
+            node.decorator_list = [self.visit(d) for d in node.decorator_list]
         saved = self.recurse_syms
         self.recurse_syms = saved - hidden
         try:
